@@ -1,6 +1,7 @@
 //! fv — conformance / exploration harness for caio/foca (see /verif/DESIGN.md)
 mod c01;
 mod c14;
+mod cfgsweep;
 mod cluster;
 mod codec;
 mod handler;
@@ -82,6 +83,12 @@ fn main() {
             };
             tw.flush();
             println!("{}", cov.json(&tw));
+            return;
+        }
+        "cfgsweep" => {
+            let n = cfgsweep::run(seed, flag(&kv, "full"), &mut tw);
+            tw.flush();
+            println!("{{\"events\":{},\"panics\":{},\"cov_configs\":{}}}", tw.events, tw.panics, n.min(2_000_000_000));
             return;
         }
         "twin" => {
